@@ -191,6 +191,13 @@ class ParamResolver:
             # Casts because numpy can handle expressions (by delegating to __pow__), but does
             # not have signature that will support this.
             if _is_plain_number(base) and _is_plain_number(exponent):
+                if (
+                    not isinstance(base, complex)
+                    and base < 0
+                    and not (isinstance(exponent, complex) or float(exponent).is_integer())
+                ):
+                    # A negative real base with a fractional exponent has a complex power.
+                    base = complex(base)
                 return np.float_power(cast(complex, base), cast(complex, exponent))
             if isinstance(base, sympy.Basic) or isinstance(exponent, sympy.Basic):
                 # One side is still symbolic: keep the power as a formula.
